@@ -97,6 +97,11 @@ def main():
                    "salt and iteration count, each against a server that knows the old or the new password; both mechanisms, "
                    "usernames with and without escapes; seed %d" % a.seed,
           "failures": fails, "replay": {"script": REPLAY_SEQ % a.seed}})
+    n, fails = replayed_logins(a.tier)
+    emit({"name": "scram-replayed-server-messages", "exhaustive": False, "cases": n, "distinct_nontrivial": n,
+          "bound": "both mechanisms x 2 users x iteration counts 1/4096 x 3 consecutive logins in one process: the server messages "
+                   "recorded from a login, replayed by a peer without the password to the next login, must make the client abort",
+          "failures": fails, "replay": {"script": REPLAY_REPLAYED}})
     n, fails = honest_logins(a.tier)
     emit({"name": "scram-many-honest-logins", "exhaustive": False, "cases": n, "distinct_nontrivial": n,
           "bound": "%d honest logins per mechanism with enumerated salts, 7 passwords, iteration counts 1..3: each must complete and "
@@ -137,6 +142,50 @@ def login_sequences(tier, seed):
                                           "server_knows": server_pw, "outcome": out, "server_accepted": srv.accepted})
                             if len(fails) >= 10:
                                 return n, fails
+    return n, fails
+
+
+class Replayer:
+    """a peer that does not know the password and answers with the two server messages it recorded from an earlier login of
+    the same user (SCRAM's protection against it is the fresh client nonce in every login)"""
+    accepted = False
+
+    def __init__(self, first, final):
+        self._first, self._final = first, final
+
+    def first(self, msg):
+        return self._first
+
+    def final(self, msg):
+        return self._final
+
+
+def replayed_logins(tier):
+    """'never completes authentication with a server that does not know the password', across logins: the server messages
+    of login k, replayed to login k+1 of the same user, must make the client abort"""
+    fails, n = [], 0
+    for mech in ("SCRAM-SHA-256", "SCRAM-SHA-512"):
+        for user, pw in (("user", "pw"), ("a,b=c", "päss")):
+            for it in (1, 4096):
+                recorded = []
+
+                class Recorder(Server):
+                    def first(self, msg):
+                        r = Server.first(self, msg); recorded.append(r); return r
+
+                    def final(self, msg):
+                        r = Server.final(self, msg); recorded.append(r); return r
+                for k in range(3):
+                    del recorded[:]
+                    out = exchange(mech, user, pw, Recorder(mech, {user: pw}, b"salt-%d" % k, it))
+                    if out != "completed" or len(recorded) != 2:
+                        fails.append({"mechanism": mech, "user": user, "login": k, "outcome": out, "note": "honest login failed"})
+                        continue
+                    n += 1
+                    out2 = exchange(mech, user, pw, Replayer(recorded[0], recorded[1]))
+                    if out2 == "completed":
+                        fails.append({"mechanism": mech, "user": user, "iterations": it, "login": k + 1,
+                                      "outcome": "completed against a peer replaying the server messages of login %d" % k})
     return n, fails
 
 
@@ -223,6 +272,15 @@ def handshakes(tier, seed):
                                       "outcome": out, "server_accepted": srv.accepted})
     return n, fails
 
+
+REPLAY_REPLAYED = '''
+import sys, logging
+logging.disable(logging.CRITICAL)
+sys.path.insert(0, "/verif")
+from bounded import C18
+n, fails = C18.replayed_logins("quick")
+VIOLATED = bool(fails); DETAIL = "%d of %d logins completed against replayed server messages; first: %r" % (len(fails), n, fails[:1])
+'''
 
 REPLAY_MANY = '''
 import sys, logging
